@@ -1035,10 +1035,11 @@ class SymArray:
         if isinstance(val, SymBool):
             val = val._i()
         if dt is not None and dt.lo is not None:
-            if isinstance(val, SymInt):
-                ENG.oblige(z3.And(val.e >= dt.lo, val.e <= dt.hi), f"value fits dtype: store into {self.name} ({dt.name})")
-            elif isinstance(val, SymReal):
+            if isinstance(val, SymReal):
                 raise EngineError("real stored into integer array")
+            if isinstance(val, SymInt) or z3.is_expr(dt.lo) or z3.is_expr(dt.hi):
+                v = lift(val)
+                ENG.oblige(z3.And(v >= dt.lo, v <= dt.hi), f"value fits dtype: store into {self.name} ({dt.name})")
             elif not (dt.lo <= val <= dt.hi):
                 ENG.oblige(False, f"value fits dtype: store into {self.name} ({dt.name}) val={val}")
         return val
@@ -1093,10 +1094,9 @@ class SymArray:
                 else:
                     raise ValueError("shape mismatch in assignment")
         elif isinstance(val, (list, tuple, range)) or (hasattr(val, "shape") and getattr(val, "shape", ()) != ()):
-            import numpy as np
-            vals = [v if is_sym(v) else (builtins.int(v) if isinstance(v, (np.integer, builtins.int)) else v)
-                    for v in (np.asarray(val, dtype=object).flatten().tolist()
-                              if not any(is_sym(q) for q in _flat(val)) else _flat(val))]
+            if hasattr(val, "tolist"):
+                val = val.tolist()
+            vals = [v if is_sym(v) else (v.__index__() if hasattr(v, "__index__") else v) for v in _flat(list(val))]
             if len(vals) != len(pos):
                 if len(vals) and len(pos) % len(vals) == 0:
                     vals = vals * (len(pos) // len(vals))
